@@ -125,7 +125,15 @@ def reachable(spec):
 
 def prune(spec):
     """copy of the spec restricted to the objects of the system (well-formedness: nothing dangling)"""
-    keep = reachable(spec)
+    keep = set(reachable(spec))
+    # "draft" jobs: attached to a server of the system (directly or through an installed service) but called by no step. They belong
+    # to no usage pattern and contribute nothing, but the server lists them among its jobs, in the live model and in a rebuild alike
+    O = spec["objects"]
+    for n, o in O.items():
+        if n not in keep and o["cls"] in JOB_CLS:
+            host = o["params"].get("server") or o["params"].get("service")
+            if host is not None and host[1] in keep:
+                keep.add(n)
     out = {"objects": {n: copy.deepcopy(o) for n, o in spec["objects"].items() if n in keep}, "system": spec["system"]}
     return out
 
